@@ -21,26 +21,120 @@ type Op struct {
 	// nested instantiation: Form "ctor" `new G<Args>(new G2<Args2>())`, "short" `G<Args>(G2<Args2>())`,
 	// "chain" `new G<Args>()->take(new G2<Args2>())`. Such an op creates TWO instances: the outer one
 	// (#n) and the inner one (#n+1, fetched back through $outer->inner).
-	Form   string   `json:"form,omitempty"`
-	G2     string   `json:"g2,omitempty"`
-	Args2  []string `json:"args2,omitempty"`
-	Raw    string   `json:"raw,omitempty"` // "raw": `new G()` without type arguments; "sub": `new AnyG()`, AnyG a plain subclass of the generic
-	Inst   int      `json:"inst"`          // write: target instance (creation index)
-	Member string   `json:"member,omitempty"`
-	Route  string   `json:"route,omitempty"` // "prop" | "meth"
-	Val    string   `json:"val,omitempty"`   // value kind
+	Form  string   `json:"form,omitempty"`
+	G2    string   `json:"g2,omitempty"`
+	Args2 []string `json:"args2,omitempty"`
+	Raw   string   `json:"raw,omitempty"` // "raw": `new G()` without type arguments; "sub": `new AnyG()`, AnyG a plain subclass of the generic
+	// Vis: visibility of the members declared with the type parameter in the generic class this op instantiates:
+	// "" public (class Box / Pair), "prot" protected (ProtBox / ProtPair), "priv" private (PrivBox / PrivPair).
+	// One history uses one visibility (the class variants differ in nothing else).
+	Vis    string `json:"vis,omitempty"`
+	Inst   int    `json:"inst"` // write: target instance (creation index)
+	Member string `json:"member,omitempty"`
+	// Route = the code that executes the store `$target->member = value` (see routeRank for the list);
+	// the agent routes run it inside a method of another live instance #Agent (any instantiation).
+	Route string `json:"route,omitempty"`
+	Store string `json:"store,omitempty"` // syntax of the store statement inside that code (formOrder): "" | "dyn" | "expr" | "each"
+	Agent int    `json:"agent,omitempty"` // pour / relay / clos: the live instance whose method performs the write
+	Val   string `json:"val,omitempty"`   // value kind
+}
+
+// Write routes, simplest first (the reducer prefers a smaller rank).
+//
+//	prop   top level:                      $t->m = x                       (public members only)
+//	meth   the target's own method:        $t->set_m(x)   { $this->m = $x }
+//	fn     a plain function:               put_m($t, x)   { $o->m = $x }   (public members only)
+//	ext    a method of an unrelated class: $ext->put_m($t, x)              (public members only)
+//	stat   a static method of the generic: G::sput_m($t, x) { $o->m = $x }
+//	pour   a method of live instance #a:   $a->pour_m($t, x) { $o->m = $x }   — code of ANOTHER instantiation stores into $t
+//	relay  a method of live instance #a:   $a->relay_m($t, x) { $o->set_m($x) } — $t's own method called from inside #a's
+//	clos   a closure made in #a's method:  $a->cpour_m($t, x) { (function() use ($o,$x) { $o->m = $x; })() }
+var routeOrder = []string{"prop", "meth", "fn", "ext", "stat", "pour", "relay", "clos"}
+
+func routeRank(r string) int {
+	for i, x := range routeOrder {
+		if x == r {
+			return i
+		}
+	}
+	return 99
+}
+
+func agentRoute(r string) bool { return r == "pour" || r == "relay" || r == "clos" }
+
+// publicOnly: the store is executed by code outside the generic class, which may only touch public members.
+func publicOnly(r string) bool { return r == "prop" || r == "fn" || r == "ext" }
+
+// sameClassAgent: for a non-public member the agent's code must belong to the target's own generic class
+// (any instantiation of it); relay only calls the target's public method, so any live instance may do it.
+func sameClassAgent(r, vis string) bool { return vis != "" && (r == "pour" || r == "clos") }
+
+var visOrder = []string{"", "prot", "priv"}
+
+func visRank(v string) int {
+	for i, x := range visOrder {
+		if x == v {
+			return i
+		}
+	}
+	return 99
+}
+
+func visPrefix(v string) string {
+	switch v {
+	case "prot":
+		return "Prot"
+	case "priv":
+		return "Priv"
+	}
+	return ""
+}
+
+func visKeyword(v string) string {
+	switch v {
+	case "prot":
+		return "protected"
+	case "priv":
+		return "private"
+	}
+	return "public"
+}
+
+// visOf is the visibility variant a history uses (that of its first `new`).
+func visOf(seq []Op) string {
+	for _, o := range seq {
+		if o.New {
+			return o.Vis
+		}
+	}
+	return ""
+}
+
+// extended: the history uses a route beyond prop/meth or a non-public variant, so the class declarations need
+// the extra methods (histories of the older plans keep exactly their old script).
+func extended(seq []Op) bool {
+	for _, o := range seq {
+		if o.New && o.Vis != "" {
+			return true
+		}
+		if !o.New && (o.Route != "prop" && o.Route != "meth" || o.Store != "") {
+			return true
+		}
+	}
+	return false
 }
 
 func (o Op) String() string {
 	if o.New {
+		vp := visPrefix(o.Vis)
 		switch o.Raw {
 		case "raw":
-			return "new " + o.G + "()"
+			return "new " + vp + o.G + "()"
 		case "sub":
-			return "new Any" + o.G + "()"
+			return "new Any" + vp + o.G + "()"
 		}
-		outer := o.G + "<" + strings.Join(o.Args, ",") + ">"
-		inner := o.G2 + "<" + strings.Join(o.Args2, ",") + ">"
+		outer := vp + o.G + "<" + strings.Join(o.Args, ",") + ">"
+		inner := vp + o.G2 + "<" + strings.Join(o.Args2, ",") + ">"
 		switch o.Form {
 		case "ctor":
 			return "new " + outer + "(new " + inner + ")"
@@ -51,8 +145,21 @@ func (o Op) String() string {
 		}
 		return "new " + outer
 	}
-	if o.Route == "meth" {
-		return fmt.Sprintf("#%d.set_%s(%s)", o.Inst, o.Member, o.Val)
+	name := methName(o.Route, o.Store, o.Member)
+	switch o.Route {
+	case "meth":
+		return fmt.Sprintf("#%d.%s(%s)", o.Inst, name, o.Val)
+	case "fn":
+		return fmt.Sprintf("%s(#%d,%s)", name, o.Inst, o.Val)
+	case "ext":
+		return fmt.Sprintf("ext.%s(#%d,%s)", name, o.Inst, o.Val)
+	case "stat":
+		return fmt.Sprintf("static::%s(#%d,%s)", name, o.Inst, o.Val)
+	case "pour", "relay", "clos":
+		return fmt.Sprintf("#%d.%s(#%d,%s)", o.Agent, name, o.Inst, o.Val)
+	}
+	if o.Store != "" {
+		return fmt.Sprintf("#%d.%s=%s [%s]", o.Inst, o.Member, o.Val, o.Store)
 	}
 	return fmt.Sprintf("#%d.%s=%s", o.Inst, o.Member, o.Val)
 }
@@ -110,8 +217,29 @@ type alpha struct {
 	Types    []string // kinds usable as type arguments
 	Vals     []string // kinds of written values
 	Routes   []string
-	Nested   bool // also nested instantiations (ctor / short / chain forms) with every inner G2<Args2>
-	Raw      bool // also `new G()` without type arguments and `new AnyG()` (class AnyG extends G {})
+	Nested   bool     // also nested instantiations (ctor / short / chain forms) with every inner G2<Args2>
+	Raw      bool     // also `new G()` without type arguments and `new AnyG()` (class AnyG extends G {})
+	Vis      string   `json:",omitempty"` // visibility variant of the generic classes ("" public | "prot" | "priv")
+	Stores   []string `json:",omitempty"` // store forms (formOrder); empty = the plain form only
+}
+
+func (a alpha) stores() []string {
+	if len(a.Stores) == 0 {
+		return []string{""}
+	}
+	return a.Stores
+}
+
+// routes of the alphabet that are valid for its visibility variant
+func (a alpha) routes() []string {
+	var out []string
+	for _, r := range a.Routes {
+		if a.Vis != "" && publicOnly(r) {
+			continue
+		}
+		out = append(out, r)
+	}
+	return out
 }
 
 // concretisation (seed-dependent): identifier names and literal pools; the shape space is unchanged.
@@ -166,13 +294,137 @@ func (c concr) literal(k string) (src, js string) {
 	panic("kind " + k)
 }
 
-func (c concr) prelude() string {
+func (c concr) prelude() string { return c.preludeFor("", false, nil) }
+
+// className of generic g ("Box" | "Pair") in visibility variant vis.
+func (c concr) className(g, vis string) string {
+	if g == "Pair" {
+		return visPrefix(vis) + c.pair
+	}
+	return visPrefix(vis) + c.box
+}
+
+// Store forms (the syntax of the store statement inside whichever code executes it), simplest first.
+//
+//	""     $o->m = $x;
+//	dyn    $o->{"m"} = $x;              dynamic member name (node/call_object_dynamic_property.go)
+//	expr   $r = ($o->m = $x);           the assignment used as an expression (node/binary_assign.go)
+//	each   foreach ([$x] as $o->m) { }  the member as a foreach target
+//
+// (`[$o->m] = [$x]` is not an entry: origami does not store anything through it, typed member or not.)
+var formOrder = []string{"", "dyn", "expr", "each"}
+
+func formRank(f string) int {
+	for i, x := range formOrder {
+		if x == f {
+			return i
+		}
+	}
+	return 99
+}
+
+func storeStmt(obj, member, form, val string) string {
+	switch form {
+	case "dyn":
+		return fmt.Sprintf("%s->{\"%s\"} = %s;", obj, member, val)
+	case "expr":
+		return fmt.Sprintf("$r = (%s->%s = %s);", obj, member, val)
+	case "each":
+		return fmt.Sprintf("foreach ([%s] as %s->%s) { }", val, obj, member)
+	}
+	return fmt.Sprintf("%s->%s = %s;", obj, member, val)
+}
+
+// methName: set_v, set_dyn_v, pour_v, pour_each_k, …
+func methName(route, form, member string) string {
+	base := map[string]string{"meth": "set", "fn": "put", "ext": "put", "stat": "sput", "pour": "pour", "relay": "relay", "clos": "cpour"}[route]
+	if form != "" {
+		base += "_" + form
+	}
+	return base + "_" + member
+}
+
+type need struct{ route, form, member string }
+
+// needs lists the (route, form, member) bodies a history calls, in first-use order; relay also needs the
+// target's own set method of that form.
+func needs(seq []Op) []need {
+	var out []need
+	seen := map[need]bool{{"meth", "", "k"}: true, {"meth", "", "v"}: true} // always declared
+	add := func(n need) {
+		if !seen[n] {
+			seen[n] = true
+			out = append(out, n)
+		}
+	}
+	for _, o := range seq {
+		if o.New || o.Route == "prop" {
+			continue
+		}
+		if o.Route == "relay" {
+			add(need{"meth", o.Store, o.Member})
+		}
+		add(need{o.Route, o.Store, o.Member})
+	}
+	return out
+}
+
+// methodDecls: the class-body methods for the needed bodies. tparam maps a member of THIS class to the name
+// of its type parameter (set methods exist only for the class's own members; the other bodies exist for
+// every member name so that an instance of one generic class can act on the other one's member).
+func methodDecls(ns []need, tparam map[string]string) string {
+	var sb strings.Builder
+	for _, n := range ns {
+		name := methName(n.route, n.form, n.member)
+		switch n.route {
+		case "meth":
+			if tp, ok := tparam[n.member]; ok {
+				fmt.Fprintf(&sb, "  public function %s(%s $x) { %s return 1; }\n", name, tp, storeStmt("$this", n.member, n.form, "$x"))
+			}
+		case "stat":
+			fmt.Fprintf(&sb, "  public static function %s($o, $x) { %s return 1; }\n", name, storeStmt("$o", n.member, n.form, "$x"))
+		case "pour":
+			fmt.Fprintf(&sb, "  public function %s($o, $x) { %s return 1; }\n", name, storeStmt("$o", n.member, n.form, "$x"))
+		case "relay":
+			fmt.Fprintf(&sb, "  public function %s($o, $x) { $o->%s($x); return 1; }\n", name, methName("meth", n.form, n.member))
+		case "clos":
+			fmt.Fprintf(&sb, "  public function %s($o, $x) { $f = function() use ($o, $x) { %s return 1; }; $f(); return 1; }\n", name, storeStmt("$o", n.member, n.form, "$x"))
+		}
+	}
+	return sb.String()
+}
+
+// preludeFor declares the classes of one visibility variant. ext=false is the original text (public members,
+// plain set_ methods only); ext=true adds getters and exactly the method bodies the history calls.
+func (c concr) preludeFor(vis string, ext bool, ns []need) string {
 	var sb strings.Builder
 	fmt.Fprintf(&sb, "class %s { public $n = 1; }\n", c.u)
 	fmt.Fprintf(&sb, "class %s { public $n = 2; }\n", c.w)
-	fmt.Fprintf(&sb, "class %s<T> {\n  public T $v;\n  public $inner = null;\n  public function __construct($inner = null) { $this->inner = $inner; }\n  public function take($x) { $this->inner = $x; return $this; }\n  public function set_v(T $x) { $this->v = $x; return 1; }\n}\n", c.box)
-	fmt.Fprintf(&sb, "class %s<K, V> {\n  public K $k;\n  public V $v;\n  public $inner = null;\n  public function __construct($inner = null) { $this->inner = $inner; }\n  public function take($x) { $this->inner = $x; return $this; }\n  public function set_k(K $x) { $this->k = $x; return 1; }\n  public function set_v(V $x) { $this->v = $x; return 1; }\n}\n", c.pair)
-	fmt.Fprintf(&sb, "class Any%s extends %s { }\nclass Any%s extends %s { }\n", c.box, c.box, c.pair, c.pair)
+	box, pair, kw := c.className("Box", vis), c.className("Pair", vis), visKeyword(vis)
+	fmt.Fprintf(&sb, "class %s<T> {\n  %s T $v;\n  public $inner = null;\n  public function __construct($inner = null) { $this->inner = $inner; }\n  public function take($x) { $this->inner = $x; return $this; }\n  public function set_v(T $x) { $this->v = $x; return 1; }\n", box, kw)
+	if ext {
+		sb.WriteString("  public function get_v() { return $this->v; }\n" + methodDecls(ns, map[string]string{"v": "T"}))
+	}
+	sb.WriteString("}\n")
+	fmt.Fprintf(&sb, "class %s<K, V> {\n  %s K $k;\n  %s V $v;\n  public $inner = null;\n  public function __construct($inner = null) { $this->inner = $inner; }\n  public function take($x) { $this->inner = $x; return $this; }\n  public function set_k(K $x) { $this->k = $x; return 1; }\n  public function set_v(V $x) { $this->v = $x; return 1; }\n", pair, kw, kw)
+	if ext {
+		sb.WriteString("  public function get_k() { return $this->k; }\n  public function get_v() { return $this->v; }\n" + methodDecls(ns, map[string]string{"k": "K", "v": "V"}))
+	}
+	sb.WriteString("}\n")
+	fmt.Fprintf(&sb, "class Any%s extends %s { }\nclass Any%s extends %s { }\n", box, box, pair, pair)
+	// code outside the generic classes: plain functions and methods of an unrelated class
+	var extBody strings.Builder
+	for _, n := range ns {
+		switch n.route {
+		case "fn":
+			fmt.Fprintf(&sb, "function %s%s($o, $x) { %s return 1; }\n", c.inst, methName("fn", n.form, n.member), storeStmt("$o", n.member, n.form, "$x"))
+		case "ext":
+			fmt.Fprintf(&extBody, "  public function %s($o, $x) { %s return 1; }\n", methName("ext", n.form, n.member), storeStmt("$o", n.member, n.form, "$x"))
+		}
+	}
+	if extBody.Len() > 0 {
+		fmt.Fprintf(&sb, "class Ext%s {\n%s}\n$%sext = new Ext%s();\n", c.box, extBody.String(), c.inst, c.box)
+	}
 	return sb.String()
 }
 
@@ -180,14 +432,13 @@ func (c concr) prelude() string {
 // "A:<json of the member>" if the write was accepted, "R:<json of the member>" if it threw.
 func (c concr) script(seq []Op) string {
 	var sb strings.Builder
-	sb.WriteString(c.prelude())
+	vis, ext := visOf(seq), extended(seq)
+	sb.WriteString(c.preludeFor(vis, ext, needs(seq)))
+	gens := instGenerics(seq)
 	n := 0
 	for _, o := range seq {
 		if o.New {
-			g := c.box
-			if o.G == "Pair" {
-				g = c.pair
-			}
+			g := c.className(o.G, vis)
 			ta := make([]string, len(o.Args))
 			for i, a := range o.Args {
 				ta[i] = c.typeName(a)
@@ -200,10 +451,7 @@ func (c concr) script(seq []Op) string {
 				cls = "Any" + g
 			}
 			if o.Form != "" {
-				g2 := c.box
-				if o.G2 == "Pair" {
-					g2 = c.pair
-				}
+				g2 := c.className(o.G2, vis)
 				tb := make([]string, len(o.Args2))
 				for i, a := range o.Args2 {
 					tb[i] = c.typeName(a)
@@ -229,12 +477,31 @@ func (c concr) script(seq []Op) string {
 		lit, _ := c.literal(o.Val)
 		v := fmt.Sprintf("$%s%d", c.inst, o.Inst)
 		var stmt string
-		if o.Route == "meth" {
-			stmt = fmt.Sprintf("%s->set_%s(%s);", v, o.Member, lit)
-		} else {
-			stmt = fmt.Sprintf("%s->%s = %s;", v, o.Member, lit)
+		ag := fmt.Sprintf("$%s%d", c.inst, o.Agent)
+		name := methName(o.Route, o.Store, o.Member)
+		switch o.Route {
+		case "meth":
+			stmt = fmt.Sprintf("%s->%s(%s);", v, name, lit)
+		case "fn":
+			stmt = fmt.Sprintf("%s%s(%s, %s);", c.inst, name, v, lit)
+		case "ext":
+			stmt = fmt.Sprintf("$%sext->%s(%s, %s);", c.inst, name, v, lit)
+		case "stat":
+			g := "Box"
+			if o.Inst >= 0 && o.Inst < len(gens) {
+				g = gens[o.Inst]
+			}
+			stmt = fmt.Sprintf("%s::%s(%s, %s);", c.className(g, vis), name, v, lit)
+		case "pour", "relay", "clos":
+			stmt = fmt.Sprintf("%s->%s(%s, %s);", ag, name, v, lit)
+		default:
+			stmt = storeStmt(v, o.Member, o.Store, lit)
 		}
-		fmt.Fprintf(&sb, "try { %s echo \"A\"; } catch (Throwable $e) { echo \"R\"; } echo \":\", json_encode(%s->%s), \"\\n\";\n", stmt, v, o.Member)
+		read := fmt.Sprintf("%s->%s", v, o.Member)
+		if vis != "" {
+			read = fmt.Sprintf("%s->get_%s()", v, o.Member) // a non-public member is read back through its getter
+		}
+		fmt.Fprintf(&sb, "try { %s echo \"A\"; } catch (Throwable $e) { echo \"R\"; } echo \":\", json_encode(%s), \"\\n\";\n", stmt, read)
 	}
 	return sb.String()
 }
@@ -250,8 +517,12 @@ type instance struct {
 // expect returns the expected output lines; ok=false if the sequence is ill-formed.
 func (c concr) expect(seq []Op) (lines []string, ok bool) {
 	var live []*instance
+	vis := visOf(seq)
 	for _, o := range seq {
 		if o.New {
+			if o.Vis != vis || visRank(vis) > 2 {
+				return nil, false // one visibility variant per history
+			}
 			ms := members[o.G]
 			if o.Raw == "" && len(ms) != len(o.Args) || o.Raw != "" && len(o.Args) != 0 {
 				return nil, false
@@ -289,6 +560,18 @@ func (c concr) expect(seq []Op) (lines []string, ok bool) {
 		in := live[o.Inst]
 		own, has := in.bind[o.Member]
 		if !has {
+			return nil, false
+		}
+		// who may execute the store is a matter of visibility, not of C19: only routes whose code is allowed
+		// to touch the member are in the space. The agent's own type arguments never enter the expectation.
+		if routeRank(o.Route) >= len(routeOrder) || formRank(o.Store) >= len(formOrder) || vis != "" && publicOnly(o.Route) {
+			return nil, false
+		}
+		if agentRoute(o.Route) {
+			if o.Agent < 0 || o.Agent >= len(live) || sameClassAgent(o.Route, vis) && live[o.Agent].g != in.g {
+				return nil, false
+			}
+		} else if o.Agent != 0 {
 			return nil, false
 		}
 		if own == "*" {
@@ -349,11 +632,28 @@ func successors(seq []Op, a alpha, out []Op) []Op {
 			out = append(out, Op{New: true, G: g, Raw: "raw"}, Op{New: true, G: g, Raw: "sub"})
 		}
 	}
-	for n, g := range instGenerics(seq) {
+	if a.Vis != "" {
+		for i := range out {
+			out[i].Vis = a.Vis
+		}
+	}
+	gens := instGenerics(seq)
+	for n, g := range gens {
 		for _, m := range members[g] {
-			for _, r := range a.Routes {
-				for _, v := range a.Vals {
-					out = append(out, Op{Inst: n, Member: m, Route: r, Val: v})
+			for _, r := range a.routes() {
+				for _, f := range a.stores() {
+					for _, v := range a.Vals {
+						if !agentRoute(r) {
+							out = append(out, Op{Inst: n, Member: m, Route: r, Store: f, Val: v})
+							continue
+						}
+						for ag, gg := range gens {
+							if sameClassAgent(r, a.Vis) && gg != g {
+								continue
+							}
+							out = append(out, Op{Inst: n, Member: m, Route: r, Store: f, Val: v, Agent: ag})
+						}
+					}
 				}
 			}
 		}
